@@ -217,7 +217,16 @@ pub fn build_svc(t: &Value) -> Dyn {
         "boxed" => erase(boxed::service(build_svc(&t["a"]))),
         "rc_boxed" => erase(boxed::rc_service(build_svc(&t["a"]))),
         "rc" => erase(Rc::new(build_svc(&t["a"]))),
-        "refcell" => erase(RefCell::new(build_svc(&t["a"]))),
+        "refcell" => {
+            if n % 2 == 0 {
+                erase(RefCell::new(build_svc(&t["a"])))
+            } else {
+                // an observer holds a shared borrow of the cell for the whole run (legal: the wrapper only needs `&S`)
+                let rc = Rc::new(RefCell::new(build_svc(&t["a"])));
+                std::mem::forget(rc.borrow());
+                erase(rc)
+            }
+        }
         "ref" => {
             // &'static Dyn: the reference wrapper needs a referent that outlives the combinator
             let r: &'static Dyn = Box::leak(Box::new(build_svc(&t["a"])));
